@@ -130,8 +130,10 @@ func witnessNotCompound(c *core.Ctx) {
 }
 
 // witnessStuckImmutable: PrepareFlush on empty tables installs an empty immutable table that Flush
-// never clears; later PrepareFlush calls are no-ops, so nothing is flushed any more. Query results
-// stay right (the mutable table is read); the model mirrors the state machine.
+// never clears. With `if immutable == nil` every later PrepareFlush was a no-op and nothing was flushed
+// any more (repaired in /repo by "fix: PrepareFlush swaps again after a flush round that had nothing to
+// flush"); the level-0 file counts in the outputs show which state machine the code has, the model
+// follows the extracted condition (`prepareOnEmpty`).
 func witnessStuckImmutable(c *core.Ctx) {
 	d, err := newDBT(c)
 	if err != nil {
@@ -148,7 +150,7 @@ func witnessStuckImmutable(c *core.Ctx) {
 	if cond, _, ok := mustParse(c, "'host' =~ 'abc' or 'host' like 'x*'", []string{"host"}); ok {
 		d.query("cpu", cond, []string{"host"}, "sql")
 	}
-	l0, l1 := d.e.fileCounts("forward")
+	l0, l1 := d.e.fileCounts(false, "forward")
 	c.Note(fmt.Sprintf("forward family after prepare-on-empty + write + flush: level0=%d level1=%d files", l0, l1))
 }
 
@@ -485,8 +487,10 @@ func witnessLut(c *core.Ctx) {
 	check("flushed")
 }
 
-// bigCase (thorough): 66000 series of one metric — series ids cross the first container boundary —
-// through implementation AND model; few distinct values per key keep the model's lists short.
+// bigCase (thorough): 70000 series of one metric — series ids cross the first container boundary of
+// the postings, the memory forward maps and the forward files — with flushes and compactions between
+// the writes. Implementation + brute-force oracle only: the list model needs O(n²) steps for that many
+// writes (container boundaries of the model are covered by the reader cases on raw buffers).
 func bigCase(c *core.Ctx, r *rand.Rand) {
 	d, err := newDBT(c)
 	if err != nil {
@@ -494,7 +498,8 @@ func bigCase(c *core.Ctx, r *rand.Rand) {
 		return
 	}
 	defer d.close()
-	n := 66000
+	d.silent = true
+	n := 70000
 	if v, ok := c.Args["big"]; ok {
 		fmt.Sscan(v, &n)
 	}
@@ -504,15 +509,17 @@ func bigCase(c *core.Ctx, r *rand.Rand) {
 			delete(t, "h")
 		}
 		d.write("big", t)
-		if i == 40000 {
+		switch i {
+		case 40000:
 			flushAll(d)
-		}
-		if i == 65530 {
+		case 65530:
 			d.place("prepare-index")
-		}
-		if i == 65540 {
+		case 65540:
 			d.place("flush-index")
 			d.place("prepare-meta")
+		case 66000:
+			d.place("flush-meta")
+			d.place("compact-index")
 		}
 	}
 	qs := []string{
@@ -520,19 +527,22 @@ func bigCase(c *core.Ctx, r *rand.Rand) {
 		"'h' like 'w25*' and 'g' != 'v0'",
 		"'u' =~ '^u3[0-9]$'",
 		"'h' not like 'w1*' and 'u' = 'u37'",
+		"'g' in ('v1','v2') or 'h' = 'w250'",
 	}
-	run := func() {
+	run := func(state string) {
 		for _, w := range qs {
 			if cond, gb, ok := mustParse(c, w, []string{"g", "h"}); ok {
 				d.query("big", cond, gb, "sql")
 			}
 		}
+		c.Note(fmt.Sprintf("big case: %d series, 5 group-by queries checked against brute force (%s)", n, state))
 	}
-	run()
+	run("memory + files")
 	flushAll(d)
-	run()
+	run("flushed")
 	d.place("compact-index")
 	d.place("compact-meta")
-	run()
+	run("compacted")
+	c.Op("reset", "ok")
 	_ = r
 }
